@@ -93,6 +93,27 @@ def build_wn(spec, controls=True):
     return wn
 
 
+def share_names(spec, rot=0):
+    """EPANET-style numbering in place: nodes '1'..'N' and links '1'..'M' in separate name spaces, so that junction
+    '3' and pipe '3' coexist (netgen names are J*/T*/R* and L*/PU*/V*); controls of the spec are renamed with them"""
+    nodes = [n['name'] for g in ('junctions', 'tanks', 'reservoirs') for n in spec[g]]
+    links = [l['name'] for g in ('pipes', 'pumps', 'valves') for l in spec[g]]
+    nmap = {n: str(1 + (i + rot) % len(nodes)) for i, n in enumerate(nodes)}
+    lmap = {l: str(1 + (i + 2 * rot) % len(links)) for i, l in enumerate(links)} if links else {}
+    for g in ('junctions', 'tanks', 'reservoirs'):
+        for n in spec[g]:
+            n['name'] = nmap[n['name']]
+    for g in ('pipes', 'pumps', 'valves'):
+        for l in spec[g]:
+            l['name'], l['a'], l['b'] = lmap[l['name']], nmap[l['a']], nmap[l['b']]
+    for c in spec.get('controls', []):
+        c['link'] = lmap[c['link']]
+        if c.get('node') is not None:
+            c['node'] = nmap[c['node']]
+    spec['shared_names'] = True
+    return nmap, lmap
+
+
 def add_controls(wn, spec):
     from wntr.network import LinkStatus
     from wntr.network.controls import Comparison, Control, ControlAction, ValueCondition, ControlPriority
